@@ -235,6 +235,10 @@ class StepOps:
             body(m)[0].value is None or (isinstance(body(m)[0].value, ast.Constant) and body(m)[0].value.value is None)))
                    for name, m in info.methods.items() if name not in ("__init__", "__anext__", "__aiter__"))
 
+    #: whole-tool evaluations start at the function's entry with every parameter bound: a local that is not in the
+    #: environment is unbound (set by the table drivers; rules that evaluate a loop body from its head leave it off)
+    ran_from_entry = False
+
     # ------------------------------------------------------------------ evaluation hooks
     def call(self, func, args, kwargs, node, env):
         last = self._resolved(node.func)
@@ -469,7 +473,43 @@ class StepOps:
             return exc[1] in names or "BaseException" in names or "Exception" in names
         return UNKNOWN
 
+    def _unbound_local(self, node: Node, env):
+        """a local of the function being evaluated that is read here while it holds nothing on this path (deleted, or its
+        only assignment did not happen): Python raises UnboundLocalError"""
+        from asl.loader import local_names
+        unit = env.get("@unit") or self.unit
+        key = id(getattr(unit, "node", None))
+        cache = self.__dict__.setdefault("_locals_of", {})
+        if key not in cache:
+            try:
+                cache[key] = set(local_names(unit)) - set(unit.param_names())
+            except Exception:  # noqa: BLE001
+                cache[key] = set()
+        locs = cache[key]
+        if not locs or node.ast is None:
+            return None
+        inner = {x.id for x in ast.walk(node.ast) if isinstance(x, ast.Name) and isinstance(x.ctx, (ast.Store, ast.Del))}
+        inner |= {a_.arg for x in ast.walk(node.ast) if isinstance(x, ast.Lambda) for a_ in x.args.args}
+        exprs = [node.ast] if node.kind != "call" else [node.ast.func] + [a_ for a_ in node.ast.args] + [k_.value for k_ in node.ast.keywords]
+        for e_ in exprs:
+            if isinstance(e_, ast.Starred):
+                e_ = e_.value
+            if isinstance(e_, ast.Name) and isinstance(e_.ctx, ast.Load) and e_.id in locs and e_.id not in inner \
+                    and e_.id not in env and not e_.id.startswith("@"):
+                return ("exc", "UnboundLocalError")
+        return None
+
     def raises(self, node: Node, env):
+        if node.kind == "call" and self.ran_from_entry:
+            unbound = self._unbound_local(node, env)
+            if unbound is not None:
+                return unbound
+        if node.kind == "call" and isinstance(node.ast, ast.Call) and len(node.ast.args) == 1 and not node.ast.keywords \
+                and self._resolved(node.ast.func) == "len" and self._resolved_kind(node.ast.func) in ("builtin", "stdlib"):
+            # the model's sources are lazy iterators: they have no length
+            it = self.ev.eval(node.ast.args[0], env)
+            if isinstance(it, tuple) and it[:1] == ("IT",) and getattr(self, "flavour", "iterator") == "iterator":
+                return ("exc", "TypeError")
         if node.kind == "call" and isinstance(node.ast, ast.Call) and len(node.ast.args) == 1 and not node.ast.keywords \
                 and self._resolved(node.ast.func) == "next" and self._resolved_kind(node.ast.func) in ("builtin", "stdlib"):
             # the builtin next() on an exhausted synchronous iterator raises right here, at the call
@@ -553,6 +593,8 @@ class StepOps:
         if node.kind == "del":
             targets = node.info.get("targets") or (node.ast.targets if isinstance(node.ast, ast.Delete) else [])
             for t in targets:
+                if isinstance(t, ast.Name):
+                    env.pop(t.id, None)  # (the local is unbound from here on)
                 if isinstance(t, ast.Subscript):
                     base = ev.eval(t.value, env)
                     idx = ev.eval(t.slice, env)
